@@ -20,7 +20,7 @@ class C16(Prop):
                 Suite("starved_%s(oracle only)" % ch, unigen.HEADER, [unigen.gen_starve_case(rng, ch) for _ in range(max(6, n // 25))], compare=False)
                 for ch in ("zc_full_sync", "zc_atomic")]
     def oracle(self, case, recs):
-        if "chan" in case.meta: return unigen.uni_oracle_exactly_once(case, recs) + unigen.uni_oracle_justified_full(case, recs) + unigen.uni_oracle_probe(case, recs)
+        if "chan" in case.meta: return unigen.uni_oracle_exactly_once(case, recs) + unigen.uni_oracle_justified_full(case, recs) + unigen.uni_oracle_prompt_alloc(case, recs) + unigen.uni_oracle_probe(case, recs)
         hits = ringgen.oracle_exactly_once(case, recs) + ringgen.oracle_reject_neutral(case, recs)
         hits += [(cls, t) for cls, t in ringgen.oracle_fifo_bounds(case, recs) if "rejected as full" in t or "more than N" in t]
         return hits
